@@ -35,6 +35,10 @@ Proof. exact accepted_cover. Qed.
 Theorem C12_fits_reader_total : forall b, fits_read b <> FErr FFuel.
 Proof. exact fits_read_total. Qed.
 
+(** same for the model of the multi-order-map reader (header cards, keyword loop, rows) *)
+Theorem C12_mom_reader_total : forall b, mom_read b <> MomErr FFuel.
+Proof. exact mom_read_total. Qed.
+
 (** whatever the characters, a document the ASCII reader accepts is a valid, ascending, in-domain
     element list of depth <= MAX_DEPTH (C07_ascii_reader_sound, restated for this property) *)
 Theorem C12_ascii_accepts_only_valid : forall (sortf : qty -> list aelem -> list aelem),
@@ -77,3 +81,4 @@ Print Assumptions C12_multiordermap_header_arithmetic_total.
 Print Assumptions C12_skymap_guard_without_n_pack_refuted.
 Print Assumptions C12_fits_reader_total.
 Print Assumptions C12_ascii_accepts_only_valid.
+Print Assumptions C12_mom_reader_total.
